@@ -818,7 +818,8 @@ def gen_l1_case(rng, voc, malformed=0.2):
             'parse_options': rng.random() < 0.9, 'validate': rng.random() < 0.8}
 
 
-# the two defects of the unchanged tree found while building C10/C11 (see the report):
+# the defects of the unchanged tree found while building C10/C11 (see the report); each is a genuine violation of
+# the statement, recognised by its exact effect and routed through ctx.report_failure under its key:
 PENDING_FINDINGS = [
     {'key': 'site:GtkDocAnnotatable._validate_annotation:len(None) for (copy-func)/(free-func) without options',
      'what': "parse_comment_block raises TypeError(\"object of type 'NoneType' has no len()\") for an identifier "
